@@ -693,6 +693,75 @@ func judgeCLI(c *core.Ctx, t tcase) {
 	}
 }
 
+// ---------------------------------------------------------------- G11: an array receiver spread over several parameters
+
+// A literal or variable call whose function has two or more parameters binds the elements of an array receiver
+// positionally (missing ones nil, extra ones ignored), for every length including 0 and however the array was made.
+func genG11(emit func(tcase)) {
+	type recv struct {
+		src   string
+		elems []string
+	}
+	recvs := []recv{{"[]", nil}, {"[1]", []string{"1"}}, {"[1, 2]", []string{"1", "2"}}, {"[1, 2, 3]", []string{"1", "2", "3"}}, {"[1, 2, 3, 4]", []string{"1", "2", "3", "4"}},
+		{"[1, 2, 3][3:]", nil}, {"[1, 2, 3]@{|x| x if x > 5}", nil}, {"[1, 2, 3][1:]", []string{"2", "3"}}, {"([1] + [2])", []string{"1", "2"}}, {"[nil, 2]", []string{"nil", "2"}}, {"[[1, 2]]", []string{"[1, 2]"}}}
+	bind := func(elems []string, n int) string {
+		out := make([]string, n)
+		for i := range out {
+			out[i] = "nil"
+			if i < len(elems) {
+				out[i] = elems[i]
+			}
+		}
+		return "[" + strings.Join(out, ", ") + "]"
+	}
+	for n := 2; n <= 3; n++ {
+		params := []string{"a", "b", "c"}[:n]
+		lit := "{|" + strings.Join(params, ", ") + "| [" + strings.Join(params, ", ") + "]}"
+		mparams := params[:n-1]
+		mlit := "m{|" + strings.Join(mparams, ", ") + "| [self, " + strings.Join(mparams, ", ") + "]}"
+		var rows, wants []string
+		for _, r := range recvs {
+			w := bind(r.elems, n)
+			emit(tcase{Family: "G11/literal-call", Src: r.src + "." + lit, Val: w, NT: true})
+			emit(tcase{Family: "G11/variable-call", Src: "f := " + lit + "\n" + r.src + ".^f", Val: w, NT: true})
+			emit(tcase{Family: "G11/method-literal-call", Src: r.src + "." + mlit, Val: w, NT: true})
+			emit(tcase{Family: "G11/thoughtful-literal-call", Src: r.src + "~." + lit, Val: w, NT: true})
+			rows = append(rows, r.src)
+			wants = append(wants, w)
+		}
+		all := "[" + strings.Join(rows, ", ") + "]"
+		emit(tcase{Family: "G11/list-chain-literal", Src: all + "@" + lit, Val: "[" + strings.Join(wants, ", ") + "]", NT: true})
+		emit(tcase{Family: "G11/list-chain-variable", Src: "f := " + lit + "\n" + all + "@^f", Val: "[" + strings.Join(wants, ", ") + "]", NT: true})
+	}
+	// one parameter: the array is the argument itself
+	for _, r := range recvs[:5] {
+		emit(tcase{Family: "G11/one-parameter", Src: r.src + ".{|a| [a]}", Val: "[" + r.src + "]", NT: true})
+	}
+}
+
+// ---------------------------------------------------------------- G12: calls with many positional arguments
+
+// \N names the N-th argument received, for every N (one- and two-digit), in plain calls, method calls and
+// literal calls with a spread receiver.
+func genG12(emit func(tcase)) {
+	for n := 1; n <= 14; n++ {
+		var args, vars, want []string
+		for k := 1; k <= n; k++ {
+			args = append(args, fmt.Sprint(100+k))
+			vars = append(vars, fmt.Sprintf("\\%d", k))
+			want = append(want, fmt.Sprint(100+k))
+		}
+		a, v, w := strings.Join(args, ", "), strings.Join(vars, ", "), strings.Join(want, ", ")
+		emit(tcase{Family: "G12/plain-call", Src: "f := {|| [" + v + ", \\0.len]}\nf(" + a + ")", Val: "[" + w + ", " + fmt.Sprint(n) + "]", NT: true})
+		emit(tcase{Family: "G12/declared-params", Src: "f := {|p, q| [" + v + ", p]}\nf(" + a + ")", Val: "[" + w + ", 101]", NT: true})
+		emit(tcase{Family: "G12/star-expansion", Src: "f := {|| [" + v + "]}\nxs := [" + a + "]\nf(*xs)", Val: "[" + w + "]", NT: true})
+		if n >= 2 {
+			// a method call prepends the receiver: \1 is the receiver, \k the (k-1)-th written argument
+			emit(tcase{Family: "G12/method-call", Src: "o := {g: m{|| [" + strings.Join(vars[1:], ", ") + "]}}\no.g(" + strings.Join(args[1:], ", ") + ")", Val: "[" + strings.Join(want[1:], ", ") + "]", NT: true})
+		}
+	}
+}
+
 // ---------------------------------------------------------------- judging
 
 func judge(c *core.Ctx, t tcase, o panrun.Obs) {
@@ -741,6 +810,8 @@ func gen(thorough bool, emit func(tcase)) {
 	genG7(emit)
 	genG8(emit)
 	genG9(emit)
+	genG11(emit)
+	genG12(emit)
 	if thorough {
 		genG5(3, emit)
 	} else {
